@@ -4,6 +4,9 @@ use std::io::{BufRead, Write};
 
 mod ops_blake;
 mod ops_chacha;
+mod ops_groestl;
+mod ops_jh;
+mod ops_simd;
 mod ops_null;
 mod ops_skein;
 mod ops_threefish;
@@ -14,6 +17,8 @@ pub struct Ctx {
     pub chacha: ops_chacha::St,
     pub backend: String,
     pub blake: ops_blake::St,
+    pub jh: ops_jh::St,
+    pub groestl: ops_groestl::St,
     pub skein: ops_skein::St,
 }
 
@@ -60,6 +65,12 @@ fn step(ctx: &mut Ctx, toks: &[&str]) -> String {
         }
         ["chacha", ..] | ["guts", ..] => ops_chacha::step(&mut ctx.chacha, toks),
         ["blake", ..] => ops_blake::step(&mut ctx.blake, &ctx.backend, toks),
+        ["jh", ..] => {
+            let be = ctx.backend.clone();
+            ops_jh::step(&mut ctx.jh, &be, toks)
+        }
+        ["groestl", ..] => ops_groestl::step(&mut ctx.groestl, toks),
+        ["simd", ..] | ["intrin", ..] => ops_simd::step(toks),
         ["null", ..] => ops_null::step(toks),
         ["tf", ..] | ["tfl", ..] => ops_threefish::step(toks),
         ["skein", ..] => ops_skein::step(&mut ctx.skein, toks),
@@ -77,6 +88,8 @@ fn main() {
         chacha: Default::default(),
         backend: "ref".to_string(),
         blake: Default::default(),
+        jh: Default::default(),
+        groestl: Default::default(),
         skein: Default::default(),
     };
     for line in stdin.lock().lines() {
